@@ -83,6 +83,8 @@ def jobs(tier: str) -> list:
         for s in slots:
             part(f"expr2[{s}]", {"PARTS": '{"expr"}', "MAXSPINE": 2, "FULLDEPTH": 2, "SLOTSET": tset([s]), "SPINESLOTS": tset([s]),
                                  "DEEPLEAVES": tset(["name", "attr2", "attr3", "strattr", "str"])}, domains=("all",))
+        # model-only regression domain: the decoder that does not load the members of functions must violate
+        out.append(("regress-function-members", "Serde", "Serde_regress_members.cfg", {}, False, True))
         part("expr3", {"PARTS": '{"expr"}', "MAXSPINE": 3, "FULLDEPTH": 2, "SLOTSET": '{"function.returns"}', "SPINESLOTS": '{"function.returns"}',
                        "DEEPLEAVES": '{"name", "attr2", "strattr"}'}, domains=("all", "clean"))   # (no defect is left in the expr part)
     return out
@@ -428,7 +430,7 @@ def vacuity(cases: list):
         problems.append("parts")
     if seen(lambda c: c["origin"]) != {json.dumps(o) for o in ("static", "inspect_src", "inspect_nosrc", "builtin", "namespace")}:
         problems.append("origins")
-    for flag in ("encode", "names", "full", "members"):      # (decode and render: no failing shape is left since the decoder fixes)
+    for flag in ("encode", "names", "full"):      # (decode, render, members: no failing shape is left since the fixes)
         if {c["clean"][flag] for c in cases} != {True, False}:
             problems.append(f"clean.{flag} takes one value only")
     steps = {s for c in cases for s in c["spine"]}
